@@ -14,13 +14,14 @@ PROPS = {
     },
     "C02": {
         "rule": "single real client <-> real server; (a) clean FIFO path: every accepted, fitting packet must be written exactly once in order; "
-                "(b) 2-40 s of drop/dup/delay after the handshake, then a clean path with continuing traffic every p seconds: after T=60 s every accepted "
+                "(b) 2-40 s of drop/dup/delay after the handshake (and, in a separate job, 2-27 s of the same while the handshake is running; the oracle then applies if the client reaches tunnel mode), then a clean path with continuing traffic every p seconds: after T=60 s every accepted "
                 "packet is delivered exactly once, in order, within 20 s and nobody exited. non-trivial = (a) >=5 packets accepted per side, (b) >=1 fault fired; "
                 "distinct = distinct run fingerprints",
         "jobs": [
             {"scen": "tunnel", "sets": {"mode": "clean"}, "quick": 2500, "thorough": 100000},
             {"scen": "tunnel", "sets": {"mode": "clean", "raw": True}, "quick": 300, "thorough": 10000},
             {"scen": "tunnel", "sets": {"mode": "recover"}, "quick": 1200, "thorough": 60000},
+            {"scen": "tunnel", "sets": {"mode": "recover", "hs": True}, "quick": 600, "thorough": 40000},
         ],
         "expect_probes": ["c02.cli.accept", "c02.srv.accept", "c02.cli.drained", "srv.outseq_wrap", "srv.inseq_wrap", "c02.srv.accept.raw"],
     },
@@ -188,7 +189,21 @@ PROPS["C09"] = {
     "expect_probes": ["c09.probes", "c09.exact", "c09.prefix", "c09.cells_with_threshold", "c02.cli.accept", "c02.srv.accept"],
 }
 
+PROPS["C18"] = {
+    "rule": "real iodined started with server addresses at positions 1..20 and last-host of subnets /8../30 (small subnets favoured) and up to 18 contenders (model and real clients) competing for the pool, sessions expiring and slots being reused over 90-240 virtual seconds: "
+            "(1) every userid handed out is < min(16, subnet size - 3) and VFUL is never answered while a slot is unused or silent for more than 62 s; (2) every address in a login reply is inside the subnet, distinct from the other sessions', and not the server's, network or broadcast address; "
+            "(3) lookup: a packet read from the server's tun for the address of a session that is logged in and was surely active within 55 s must be queued for or sent to exactly that session (peek at users[] after the step, and the wire), "
+            "and packets for addresses without such an owner never reach a session (C04 routing clause). non-trivial = >=1 login and >=1 lookup judged; distinct = distinct run fingerprints",
+    "jobs": [
+        {"scen": "sessions", "sets": {"focus": "pool"}, "quick": 2000, "thorough": 120000},
+        {"scen": "sessions", "sets": {}, "quick": 600, "thorough": 40000},
+    ],
+    "expect_probes": ["c18.addresses_checked", "c18.lookup_checked", "c18.vful", "c18.last_slot_used", "c04.routed_packets", "c04.slot_reused"],
+    "nontriv_probe": "c18.lookup_checked",
+}
+
 LEVEL_TEXT = {
+    "C18": "Exploration: the pool arithmetic is observed through live sessions (who gets which userid and address, when VFUL is said) over sampled subnets and server positions, and the time-dependent lookup by tunnel address is judged against a wire-level model of which session is live and logged in.",
     "C08": "Exploration: every query name the unmodified client emits in short real sessions over sampled (L, domain length, upstream codec, payload) is parsed strictly, length-checked and reference-decoded on the wire, and compared slice by slice with compress2 of the packet read from tun and with the server's reassembly buffer. Sampled, not enumerated.",
     "C09": "Exploration: real server encodings decoded by an independent reference decoder over sampled lengths in every (type, codec, name-length) cell with a downward-closure check; reference encodings and real encodings fed to the real client in live sessions judged by exact packet delivery.",
     "C11": "Exploration: the real client's autodetection runs end to end through sampled fixed path transformations; a completed handshake must be followed by exact delivery, and negotiation must complete whenever Base32, 512-byte answers and one record type pass.",
@@ -210,7 +225,6 @@ LEVEL_TEXT = {
 NOT_APPLICABLE = {
     "C07": "pure function of (bytes, capacity): no schedule, clock, fault or peer for a simulator to vary (DESIGN.md section 8); codec defects that affect traffic still surface through C01/C02/C08/C09",
     "C17": "pure string predicates check_topdomain/query_datalen: nothing for a simulator to vary (DESIGN.md section 8)",
-    "C18": "pure arithmetic on (address, netmask) in init_users; the time-dependent lookup half is exercised under C04 (DESIGN.md section 8)",
     "C19": "pure hash of (password, challenge); no history or fault dimension (DESIGN.md section 8); the independent MD5/login reference must agree with the real code for C03/C04 scenarios to log in at all",
 }
 
